@@ -3,6 +3,7 @@ package c08
 
 import (
 	"fmt"
+	"strings"
 	"sync"
 	"testing"
 	"time"
@@ -26,7 +27,20 @@ func down(name string, qos int) []scn.Op {
 	return []scn.Op{{Kind: "open-down", Obj: name, QoS: qos}, {Kind: "read-data", Obj: name}, {Kind: "read-meta", Obj: name}, {Kind: "close-down", Obj: name}}
 }
 
+// long-lived upstream: the stream keeps living (and is looked at) well after a delayed or withheld answer came in
+func upLong(name string, qos int) []scn.Op {
+	return []scn.Op{{Kind: "open-up", Obj: name, QoS: qos}, {Kind: "write", Obj: name, N: 2}, {Kind: "flush", Obj: name}, {Kind: "sleep", N: 130000}, {Kind: "state", Obj: name},
+		{Kind: "write", Obj: name}, {Kind: "flush", Obj: name}, {Kind: "sleep", N: 130000}, {Kind: "state", Obj: name}, {Kind: "write", Obj: name}, {Kind: "close-up", Obj: name}}
+}
+
+func downLong(name string, qos int) []scn.Op {
+	return []scn.Op{{Kind: "open-down", Obj: name, QoS: qos}, {Kind: "read-data", Obj: name}, {Kind: "sleep", N: 130000}, {Kind: "state", Obj: name}, {Kind: "read-meta", Obj: name},
+		{Kind: "read-data", Obj: name}, {Kind: "sleep", N: 130000}, {Kind: "state", Obj: name}, {Kind: "close-down", Obj: name}}
+}
+
 var templates = map[string]scn.Program{
+	"upstream-long-lived":          {upLong("u", 1)},
+	"up+down-long-lived":           {upLong("u", 0), downLong("d", 1)},
 	"upstream-reliable":            {up("u", 1)},
 	"upstream-unreliable":          {up("u", 0)},
 	"downstream":                   {down("d", 1)},
@@ -40,7 +54,8 @@ var templates = map[string]scn.Program{
 }
 
 var templateNames = func() []string {
-	return []string{"upstream-reliable", "upstream-unreliable", "downstream", "metadata", "calls", "conn-close-with-open-streams", "up+down", "up+meta+call", "two-ups", "down+down"}
+	return []string{"upstream-reliable", "upstream-unreliable", "downstream", "metadata", "calls", "conn-close-with-open-streams", "up+down", "up+meta+call", "two-ups", "down+down",
+		"upstream-long-lived", "up+down-long-lived"}
 }()
 
 var behaviours = []string{"answer", "delay", "drop", "sever-before", "sever-after", "mis-reqid", "mis-upalias", "mis-downalias", "mis-source", "mis-callid", "mis-reply",
@@ -98,6 +113,8 @@ type outcome struct {
 	startDur time.Duration
 	fired    int
 	npos     int
+	links    int // transports dialled during the case
+	severs   int // sever behaviours that fired
 }
 
 func execute(c Case, faults []Fault) *outcome {
@@ -146,8 +163,14 @@ func execute(c Case, faults []Fault) *outcome {
 			case "drop":
 				return sim.Handled
 			case "sever-before":
+				mu.Lock()
+				o.severs++
+				mu.Unlock()
 				return sim.SeverBefore
 			case "sever-after":
+				mu.Lock()
+				o.severs++
+				mu.Unlock()
 				return sim.SeverAfter
 			case "withhold-acks":
 				mu.Lock()
@@ -211,6 +234,7 @@ func execute(c Case, faults []Fault) *outcome {
 		o.held = env.LockProbe(100, 200*time.Millisecond)
 	}
 	o.ledger = b.Ledger()
+	o.links = len(w.Links())
 	return o
 }
 
@@ -226,7 +250,7 @@ func reference(tmpl string) int {
 	if n, ok := refLen[tmpl]; ok {
 		return n
 	}
-	o := execute(Case{Template: tmpl, Cfg: scn.Config{CtxMs: 2000, CloseTimeoutMs: 500, PingMs: 200}}, nil)
+	o := execute(Case{Template: tmpl, Cfg: scn.Config{CtxMs: 2000, CloseTimeoutMs: 500, PingMs: 200, PingTimeoutMs: 1500}}, nil)
 	n := 0
 	for _, e := range o.ledger {
 		if e.In && e.Inc == 0 && e.Pos > n {
@@ -298,11 +322,19 @@ func run(c Case, k *ev.Case) *ev.Failure {
 				r.Dur.Round(time.Millisecond), cfg.CtxMs, cfg.CloseTimeoutMs, cfg.PingMs, cfg.PingMs, slack, bound).WithHistory(hist())
 		}
 	}
+	// an outage nobody planned (the keepalive gave up on a starved process, or the library dropped a healthy connection - C15's and
+	// C05's business): the probe no longer talks to a cooperative broker over a healthy link, so its errors prove nothing. Blocked
+	// calls and leaked locks are still judged.
+	disturbed := o.links > 1+o.severs
+	if disturbed {
+		k.Label("unplanned-reconnect")
+		ev.TimingInconclusive()
+	}
 	for _, r := range o.probes {
 		if r.Hung || r.Panic != "" {
 			return ev.Failf("C08.2 later-call-blocked", "after the scenario the cooperative broker's probe call %s %s is blocked (hung=%v panic=%q); faults %v", r.Op.Kind, r.Op.Obj, r.Hung, r.Panic, faults).WithHistory(hist())
 		}
-		if r.Err != "" {
+		if r.Err != "" && !disturbed {
 			return ev.Failf("C08.2 later-call-fails", "after the scenario, with a cooperative broker, %s %s fails: %s; faults %v", r.Op.Kind, r.Op.Obj, r.Err, faults).WithHistory(hist())
 		}
 	}
@@ -313,7 +345,7 @@ func run(c Case, k *ev.Case) *ev.Failure {
 }
 
 func genCfg(t *rapid.T) scn.Config {
-	return scn.Config{Codec: rapid.SampledFrom([]string{"proto", "json"}).Draw(t, "codec"), PingMs: 30, CtxMs: rapid.SampledFrom([]int{50, 100, 200, 300}).Draw(t, "ctx"),
+	return scn.Config{Codec: rapid.SampledFrom([]string{"proto", "json"}).Draw(t, "codec"), PingMs: 30, PingTimeoutMs: 1500, CtxMs: rapid.SampledFrom([]int{50, 100, 200, 300}).Draw(t, "ctx"),
 		CloseTimeoutMs: rapid.SampledFrom([]int{50, 100, 200}).Draw(t, "closeto"), AckTimeoutMs: rapid.SampledFrom([]int{0, 0, 50}).Draw(t, "ackto")}
 }
 
@@ -340,26 +372,33 @@ func TestProp(t *testing.T) { sub.Check(t) }
 // TestEnumerate: every behaviour at every message position of every template (sharded).
 func TestEnumerate(t *testing.T) {
 	idx := 0
-	cfg := scn.Config{PingMs: 30, CtxMs: 200, CloseTimeoutMs: 100}
+	// two configurations: without an ack timeout, and with one that is shorter than the delay behaviour (answers arriving after the
+	// library gave up waiting for them)
+	cfgs := []scn.Config{{PingMs: 30, PingTimeoutMs: 1500, CtxMs: 200, CloseTimeoutMs: 100}, {PingMs: 30, PingTimeoutMs: 1500, CtxMs: 200, CloseTimeoutMs: 100, AckTimeoutMs: 30}}
 	total, failed := 0, 0
-	for _, tn := range templateNames {
-		n := reference(tn)
-		for pos := 2; pos <= n; pos++ {
-			for _, bh := range behaviours {
-				idx++
-				if idx%ev.NShards() != ev.ShardIndex() {
-					continue
-				}
-				f := Fault{Pos: pos, Behaviour: bh}
-				if bh == "delay" {
-					f.DelayMs = 60
-				}
-				total++
-				if !sub.One(t, Case{Template: tn, Faults: []Fault{f}, Cfg: cfg}) {
-					failed++
-					if failed >= 3 {
-						ev.SetExhaustive("position-x-behaviour", false)
-						return
+	for ci, cfg := range cfgs {
+		for _, tn := range templateNames {
+			if ci == 1 && !strings.Contains(tn, "up") {
+				continue // the ack timeout only concerns upstreams
+			}
+			n := reference(tn)
+			for pos := 2; pos <= n; pos++ {
+				for _, bh := range behaviours {
+					idx++
+					if idx%ev.NShards() != ev.ShardIndex() {
+						continue
+					}
+					f := Fault{Pos: pos, Behaviour: bh}
+					if bh == "delay" {
+						f.DelayMs = 60
+					}
+					total++
+					if !sub.One(t, Case{Template: tn, Faults: []Fault{f}, Cfg: cfg}) {
+						failed++
+						if failed >= 3 {
+							ev.SetExhaustive("position-x-behaviour", false)
+							return
+						}
 					}
 				}
 			}
@@ -376,11 +415,15 @@ func TestRegress(t *testing.T) {
 	if ev.ShardIndex() != 0 {
 		t.Skip("shard 0")
 	}
-	cfg := scn.Config{PingMs: 30, CtxMs: 200, CloseTimeoutMs: 100}
+	cfg := scn.Config{PingMs: 30, PingTimeoutMs: 1500, CtxMs: 200, CloseTimeoutMs: 100}
 	// C08-upstream-close-ignores-ctx: acks withheld from the first chunk on, then Close
 	sub.One(t, Case{Template: "upstream-reliable", Faults: []Fault{{Pos: 3, Behaviour: "withhold-acks"}}, Cfg: cfg})
 	sub.One(t, Case{Template: "upstream-reliable", Faults: []Fault{{Pos: 3, Behaviour: "sever-before"}}, Cfg: cfg})
 	// C08-metadata-unsubscribed-source: leaked read lock
 	sub.One(t, Case{Template: "downstream", Faults: []Fault{{Pos: 2, Behaviour: "mis-source"}}, Cfg: cfg})
 	sub.One(t, Case{Template: "down+down", Faults: []Fault{{Pos: 3, Behaviour: "replace-source"}}, Cfg: cfg})
+	// C08-late-ack-after-ack-timeout: the ack of the first chunk arrives after the ack timeout while the stream lives on
+	cfgAck := scn.Config{PingMs: 30, PingTimeoutMs: 1500, CtxMs: 200, CloseTimeoutMs: 100, AckTimeoutMs: 30}
+	sub.One(t, Case{Template: "upstream-long-lived", Faults: []Fault{{Pos: 3, Behaviour: "delay", DelayMs: 60}}, Cfg: cfgAck})
+	sub.One(t, Case{Template: "upstream-long-lived", Faults: []Fault{{Pos: 4, Behaviour: "delay", DelayMs: 90}}, Cfg: cfgAck})
 }
